@@ -407,6 +407,33 @@ func c12CLI(c *fw.Ctx, r *rand.Rand, u, served, caseDir string, rels []string, f
 			}
 		}
 	}
+	// sum-copy (item globbing through /items, summing through /sum) from the directory and from the URL
+	{
+		d1, d2 := filepath.Join(local, "scopy-local"), filepath.Join(local, "scopy-remote")
+		common := []string{"-item", caseDir + "/cl*", "-src", "*.wsp", "-dest", "sum.wsp", "-agg-method", model.MethodNames[l.Method], "-x-files-factor", strconv.FormatFloat(float64(l.Xff), 'g', -1, 32), "-retentions", l.RetentionString(), "-text-out", "", "-archive", sel}
+		okSec := false
+		var lres, rres cliResult
+		for try := 0; try < 6 && !okSec; try++ {
+			os.RemoveAll(d1)
+			os.RemoveAll(d2)
+			ns := time.Now().Nanosecond()
+			if ns > 300e6 {
+				time.Sleep(time.Duration(1e9-ns) + 5*time.Millisecond)
+			}
+			lres = runCLI(c, append([]string{"sum-copy", "-src-base", served, "-dest-base", d1}, common...)...)
+			rres = runCLI(c, append([]string{"sum-copy", "-src-base", u, "-dest-base", d2}, common...)...)
+			okSec = lres.T0 == rres.T1
+		}
+		if okSec {
+			c.Count("cli_copy_pairs", 1)
+			rel := filepath.Join(caseDir, "cli", "sum.wsp")
+			b1, b2 := readFileOrNil(filepath.Join(d1, rel)), readFileOrNil(filepath.Join(d2, rel))
+			if lres.Exit != rres.Exit || (lres.Exit == 0 && (b1 == nil || !bytes.Equal(b1, b2))) {
+				c.Violationf("cli-remote-local-differ:sum-copy", fw.J{"local": lres.brief(), "remote": rres.brief(), "first_diff": firstDiff(b1, b2)},
+					"sum-copy from the directory (exit %d) and from the URL (exit %d) produced different destinations", lres.Exit, rres.Exit)
+			}
+		}
+	}
 	// glob copy (file globbing through /files) from the directory and from the URL
 	{
 		d1, d2 := filepath.Join(local, "gcopy-local"), filepath.Join(local, "gcopy-remote")
